@@ -220,6 +220,14 @@ Example C04_ex_suffix_clash : field_attr "class" = field_attr "class_" /\ suffix
 Proof. exact ex_suffix_clash. Qed.
 Print Assumptions C04_ex_suffix_clash.
 
+(* server-streaming calls: the request side is [run] as for unary calls; the emitted session call passes data=body iff
+   the first binding has a body, whatever the streaming flag and the transport flavour (tied by T1 to the keyword list
+   of every emitted _get_response, and by T2/oracle to driven server-streaming calls) *)
+Theorem C04_data_kw_iff_body : forall body is_async streaming,
+  In "data"%string (response_kwargs body is_async streaming) <-> body = true.
+Proof. exact data_kw_iff_body. Qed.
+Print Assumptions C04_data_kw_iff_body.
+
 (* methods without a binding refuse the REST transport, and only those (and client-streaming ones) do *)
 Theorem C04_no_binding_not_implemented : forall numeric m r,
   http_options m = [] -> run numeric m r = Fail NotImplemented.
